@@ -18,6 +18,65 @@ def strip(t):
     return t
 
 
+def check_width(chk, rule, prog, eff, cache, H, PA, CS, families=None):
+    """each width arm of the leaf serializers hands the value read by the getter of THAT width, unconverted, to the
+    encoder of THAT width (shared by C03.width and C15.width-serialize)"""
+    ITEM = ("arg", 0)
+    nw = 0
+    for name, fam in (families or (("cbor_serialize_uint", ("int", 0x00)), ("cbor_serialize_negint", ("int", 0x20)), ("cbor_serialize_float_ctrl", ("float", 0xE0)))):
+        g = prog.fn(name)
+        gw = "%s:%d" % (g.file, g.line)
+        widths_seen = set()
+        for k, pa in enumerate(cache.get(name)):
+            encs = [e for e in pa.events if e.kind == "call" and e.ckind == "lib" and e.callee.startswith("cbor_encode_")]
+            if not encs:
+                continue
+            tys_, iw_, fw_, _fl = CS.summary(g, pa, ITEM, upto=encs[0].nfacts)
+            w = sorted(iw_ if fam[0] == "int" else fw_)
+            if len(w) != 1:
+                continue
+            w = w[0]
+            if len(encs) != 1 or pa.ret != encs[0].res:
+                chk.ob(rule, "%s width %d" % (name, w), False, gw, fn=name, key="%s:%d" % (name, w), detail="arm does not return a single encoder's result")
+                continue
+            enc = encs[0]
+            spec = ER.SPEC.get(enc.callee)
+            getter_term = enc.args[0]
+            gt = strip(getter_term)
+            ok = spec is not None and gt[0] == "call" and enc.args[1:] == (("arg", 1), ("arg", 2))
+            det = ""
+            if ok:
+                # getter precondition: same width, same family
+                ge = [e for e in pa.events if e.kind == "call" and e.res == gt][0]
+                pre = H.get(ge.callee, [])
+                pts = set(typestate.DOMAIN)
+                for a in pre:
+                    if a.get("param") == 0:
+                        ap = PA.atom_points(a)
+                        if ap is not None:
+                            pts &= ap
+                widx = 1 if fam[0] == "int" else 2
+                gws = sorted({p[widx] for p in pts})
+                okg = gws == [w] and ge.args[0] == ("arg", 0)
+                # encoder: width and offset
+                mode, off, nbytes = spec
+                if fam[0] == "int":
+                    oke = mode == "fixed" and off == fam[1] and nbytes == WIDTH_BYTES[w]
+                else:
+                    oke = off == 0xE0 and ((w == 0 and mode == "fixed" and nbytes == 1) or (w > 0 and mode == "float" and nbytes == WIDTH_BYTES[w]))
+                # no conversion between getter and encoder
+                okc = getter_term == gt or (getter_term[0] == "cast" and getter_term[1] in ("zext",) and False)
+                ok = okg and oke and okc
+                det = "" if ok else "getter %s (widths %s), encoder %s %s, unconverted: %s" % (ge.callee, gws, enc.callee, spec, okc)
+            widths_seen.add(w)
+            nw += 1
+            chk.ob(rule, "%s width %d -> %s" % (name, w, enc.callee), ok, gw, fn=name, key="%s:%d" % (name, w), detail=det)
+        chk.ob(rule, "%s covers all four widths" % name, widths_seen == {0, 1, 2, 3}, gw, fn=name, key="%s:all" % name,
+               detail="arms for %s" % sorted(widths_seen))
+    chk.floor(rule, "width arms", nw, 9 if families is None else 3)
+
+
+
 def run(ctx, chk):
     prog = ctx.prog()
     eff = ctx.effects(prog)
@@ -84,58 +143,7 @@ def run(ctx, chk):
     chk.ob("C03.dispatch", "exhaustive over cbor_type", not missing, where, fn=f.name, detail="no arm for %s" % missing if missing else "")
 
     # ---- width arms
-    nw = 0
-    for name, fam in (("cbor_serialize_uint", ("int", 0x00)), ("cbor_serialize_negint", ("int", 0x20)), ("cbor_serialize_float_ctrl", ("float", 0xE0))):
-        g = prog.fn(name)
-        gw = "%s:%d" % (g.file, g.line)
-        widths_seen = set()
-        for k, pa in enumerate(cache.get(name)):
-            encs = [e for e in pa.events if e.kind == "call" and e.ckind == "lib" and e.callee.startswith("cbor_encode_")]
-            if not encs:
-                continue
-            tys_, iw_, fw_, _fl = CS.summary(g, pa, ITEM, upto=encs[0].nfacts)
-            w = sorted(iw_ if fam[0] == "int" else fw_)
-            if len(w) != 1:
-                continue
-            w = w[0]
-            if len(encs) != 1 or pa.ret != encs[0].res:
-                chk.ob("C03.width", "%s width %d" % (name, w), False, gw, fn=name, key="%s:%d" % (name, w), detail="arm does not return a single encoder's result")
-                continue
-            enc = encs[0]
-            spec = ER.SPEC.get(enc.callee)
-            getter_term = enc.args[0]
-            gt = strip(getter_term)
-            ok = spec is not None and gt[0] == "call" and enc.args[1:] == (("arg", 1), ("arg", 2))
-            det = ""
-            if ok:
-                # getter precondition: same width, same family
-                ge = [e for e in pa.events if e.kind == "call" and e.res == gt][0]
-                pre = H.get(ge.callee, [])
-                pts = set(typestate.DOMAIN)
-                for a in pre:
-                    if a.get("param") == 0:
-                        ap = PA.atom_points(a)
-                        if ap is not None:
-                            pts &= ap
-                widx = 1 if fam[0] == "int" else 2
-                gws = sorted({p[widx] for p in pts})
-                okg = gws == [w] and ge.args[0] == ("arg", 0)
-                # encoder: width and offset
-                mode, off, nbytes = spec
-                if fam[0] == "int":
-                    oke = mode == "fixed" and off == fam[1] and nbytes == WIDTH_BYTES[w]
-                else:
-                    oke = off == 0xE0 and ((w == 0 and mode == "fixed" and nbytes == 1) or (w > 0 and mode == "float" and nbytes == WIDTH_BYTES[w]))
-                # no conversion between getter and encoder
-                okc = getter_term == gt or (getter_term[0] == "cast" and getter_term[1] in ("zext",) and False)
-                ok = okg and oke and okc
-                det = "" if ok else "getter %s (widths %s), encoder %s %s, unconverted: %s" % (ge.callee, gws, enc.callee, spec, okc)
-            widths_seen.add(w)
-            nw += 1
-            chk.ob("C03.width", "%s width %d -> %s" % (name, w, enc.callee), ok, gw, fn=name, key="%s:%d" % (name, w), detail=det)
-        chk.ob("C03.width", "%s covers all four widths" % name, widths_seen == {0, 1, 2, 3}, gw, fn=name, key="%s:all" % name,
-               detail="arms for %s" % sorted(widths_seen))
-    chk.floor("C03.width", "width arms", nw, 9)
+    check_width(chk, "C03.width", prog, eff, cache, H, PA, CS)
 
     # ---- encoder tables
     encs = ER.public_encoders(prog)
@@ -242,6 +250,12 @@ def run(ctx, chk):
     chk.rule("C03.simple", "assigned simple values decode; unassigned ones are outside the property's domain")
     nm = mirror(chk, "C03.mirror", "C03.simple", prog, eff, encs, by_byte, enumv, loader_ext)
     chk.floor("C03.mirror", "encoder byte -> decoder arm links", nm, 200)
+    # ---- the decoder accepts what the serializer can emit for a tree within the nesting limit
+    chk.rule("C03.gate", "the decoding stack accepts a frame at every depth below the configured limit and refuses exactly at it, so a "
+                         "tree nested exactly CBOR_MAX_STACK_SIZE deep loads back (shared with C19.gate)")
+    from props.c19 import check_gate
+    L_ = int(prog.values["CBOR_MAX_STACK_SIZE"])
+    check_gate(chk, prog, eff, L_, "default(L=%d)" % L_, rule="C03.gate")
     chk.exhaustive = True
 
 
